@@ -757,7 +757,51 @@ class C05(Prop):
                 res.oracle_failures.append(dict(key="C05|failing-writer|error-swallowed-or-not-a-prefix", case=full, detail=fl[:200]))
 
 
-REGISTRY = {"C05": C05(), "C02": C02(), "C20": C20(), "C09": C09(), "C10": C10(), "C14": C14(), "C12": C12()}
+# ------------------------------------------------------------------------------------------
+# C03
+
+class C03(StreamProp):
+    rule = ("fixed corner cases, the repository's benchmark corpus (files < 200 kB in quick, < 3 MB in thorough), generated documents "
+            "(depth <= 5, duplicate keys allowed, long strings, whitespace variants) with a fifth of them mutated, and an alignment sweep "
+            "(string and number elements at offset 0..64 x length 0..130); each text goes through the whole-input in-place parse "
+            "(from_slice and from_str), the second document of a stream (copy path), a field embedded in a typed struct (twice), raw-number "
+            "mode and lossy mode; the tree is dumped through the public read API only and compared with the specification's tree; "
+            "non-trivial = the text is accepted and contains a container or a string")
+    trusted = ["number classification/rounding is the executable Spec.Num (exact big-integer arithmetic); see C07 for what is proved about it"]
+    assumptions = []
+    streams = [("c03", [("oracle", f, "spec", "dump") for f in ("whole", "whole_str", "embedded")]
+                + [("oracle", "stream2", "spec.pre", "dump"), ("oracle", "rawnum", "spec.raw.pre", "dump"), ("oracle", "lossy", "spec.lossy.pre", "dump")])]
+
+    def classify(self, stream, field, case, got, want, impl, model):
+        t = unhex(case.split(" ")[1])
+        if field in ("stream2", "rawnum", "lossy") and re.match(rb"^[ \t\r\n]*-?0[0-9]", t):
+            return None     # stream entry points: `00` is two documents (see C02)
+        if want == "R":
+            cls = "accepts-what-spec-rejects"
+        elif got == "R":
+            cls = "rejects-what-spec-accepts"
+        else:
+            # find the first differing leaf kind
+            cls = "tree-differs"
+            import itertools
+            for a, b in itertools.zip_longest(re.findall(r"[UIFSR][0-9a-f-]*|[ntf]", got), re.findall(r"[UIFSR][0-9a-f-]*|[ntf]", want)):
+                if a != b:
+                    if a and b and a[0] in "UIF" and b[0] in "UIF":
+                        if a.lstrip("F").strip("0") == "" and b.startswith("F8") and b[2:].strip("0") == "":
+                            cls = "sign-of-zero-lost"
+                        else:
+                            cls = "number-differs"
+                    elif a and b and a[0] == "S" and b[0] == "S":
+                        cls = "string-differs"
+                    break
+        return f"C03|{field}|{cls}"
+
+    def nontrivial_case(self, I, M):
+        w = I.get("whole", "R")
+        return w != "R" and any(ch in w for ch in "[{S")
+
+
+REGISTRY = {"C05": C05(), "C03": C03(), "C02": C02(), "C20": C20(), "C09": C09(), "C10": C10(), "C14": C14(), "C12": C12()}
 for _k, _v in REGISTRY.items():
     _v.pid = _k
 
